@@ -317,8 +317,8 @@ def boundary_cases() -> list[dict]:
         wire = 256 ** MAXW[cid] - 1
         for v in sorted({0, wire, wire + 1, PARSER_MAX[kw], PARSER_MAX[kw] + 1, 255, 256, -1}):
             for v6 in (0, 1):
-                if afi is not None and afi != (2 if v6 else 1):
-                    continue
+                if (afi or 1) != (2 if v6 else 1):
+                    continue  # a keyword valid in both families is probed in IPv4 only: the value check is the same code
                 c = new_case(v6, f'boundary:{kw}')
                 add_prefix(c, ('t6', 1, 0x20010DB8 << 96, 32, 0) if v6 else ('t4', 1, 0x0A000000, 8))
                 add_ops(c, kw, cid, [(1, v)])
@@ -367,6 +367,14 @@ def boundary_cases() -> list[dict]:
         c = new_case(v6, 'repeat-prefix')
         for k in (0, 1):
             add_prefix(c, ('t6', 2, (0x20010DB8 + k) << 96, 32, 0) if v6 else ('t4', 2, (10 + k) << 24, 8))
+        out.append(c)
+    # deterministic lengths around the 240 switch, 256 and the 4095 limit: one `port` component
+    for n in (239, 240, 241, 255, 256, 257, 4094, 4095, 4096):
+        c = new_case(0, f'length-{n}')
+        body = n - 1
+        three = body % 2
+        terms = [(1, 1000)] * three + [(1, 80)] * ((body - 3 * three) // 2)
+        add_ops(c, 'port', 4, terms)
         out.append(c)
     # bit names summed
     c = new_case(0, 'bit-sum')
@@ -504,6 +512,8 @@ def canon_encode(cls: str, case: dict, extra: dict | None = None) -> dict:
     d = {'class': cls, 'family': 'ipv6' if case['v6'] else 'ipv4', 'vpn': case['rd'] is not None, 'components': sorted(describe_tcomp(case, i) for i in range(len(case['tcomps'])))}
     if case.get('contradictory'):
         d['family'] = 'contradictory'
+    elif cls == 'accepted-then-pack-raises' and all(c[0] == 'o' for c in case['tcomps']) and not case['v6']:
+        d.pop('family')  # the value check does not depend on the family (IPv6 canons keep the prefix that makes the rule IPv6)
     if extra:
         d.update(extra)
     return d
@@ -544,7 +554,7 @@ def judge_encode(case: dict, r: dict) -> tuple[str | None, str | None, str]:
         # correspondence with the model of ExaBGP's encoder
         if pk['status'] == 'ok':
             want = f'ok {pk["v6"]} {pk["hex"]}'
-            if r['exa'] != want:
+            if r['exa'] != want and case['stream'] != 'bit-sum':  # bit-sum probes the value converter, which is glue
                 dis = dis or f'exaPack: model {r["exa"][:200]} impl {want[:200]}'
         else:
             kind = ERRMAP.get(pk['error'], pk['error'])
@@ -921,6 +931,93 @@ def impl_as_rule(v6: int, comps: list[str]) -> tuple[list[str], list[str]]:
     return out, notes
 
 
+def scan_features(v6: int, vpn: int, hx_: str) -> set:
+    """Byte-level features of an NLRI (lenient walk, for attributing a failure to a known mechanism only)."""
+    b = b'' if hx_ == '-' else bytes.fromhex(hx_)
+    feats: set = set()
+    if not b:
+        return feats
+    if b[0] >= 0xF0:
+        if len(b) < 2:
+            return feats
+        n, body = ((b[0] & 0x0F) << 8) | b[1], b[2:]
+    else:
+        n, body = b[0], b[1:]
+    if n >= 256:
+        feats.add('payload-ge-256')
+    body = body[:n]
+    if vpn:
+        if len(body) < 8:
+            feats.add('vpn-short')
+            return feats
+        body = body[8:]
+    i = 0
+    while i < len(body):
+        t = body[i]
+        i += 1
+        kind = rig.KIND.get(t) if (v6 or t != 13) else None
+        if kind is None:
+            break
+        if kind == 0:
+            if v6:
+                if i + 1 >= len(body):
+                    break
+                if body[i + 1]:
+                    feats.add('offset')
+                    break  # the two readings part ways here
+                i += 2 + (body[i] + 7) // 8
+            else:
+                if i >= len(body):
+                    break
+                i += 1 + (body[i] + 7) // 8
+            continue
+        first = True
+        while i < len(body):
+            op = body[i]
+            if op & 0x08 or (kind == 2 and op & 0x04):
+                feats.add('reserved-bits')
+            if first and op & 0x40:
+                feats.add('first-and')
+            first = False
+            i += 1 + (1 << ((op >> 4) & 3))
+            if op & 0x80:
+                break
+    return feats
+
+
+def decode_probes() -> list[dict]:
+    """Enumerated minimal inputs, one per decoding mechanism the RFCs pin down."""
+    out = []
+
+    def emit(mech: str, v6: int, vpn: int, b: bytes) -> None:
+        out.append({'v6': v6, 'vpn': vpn, 'hex': b.hex(), 'tags': ['probe:' + mech]})
+
+    # extended length: payloads of 240, 255, 256, 300, 4095 bytes (one port component with many operators)
+    for n in (239, 240, 255, 256, 257, 300, 4095):
+        body = n - 1
+        three = 1 if body % 2 else 0
+        terms = [(1, 1000)] * three + [(1, 80)] * ((body - 3 * three) // 2)
+        payload = enc_raw(raw_of_rule([('op', 4, terms)]))
+        assert len(payload) == n, (len(payload), n)
+        emit('payload-ge-256' if n >= 256 else 'payload-lt-256', 0, 0, nlri_of(payload))
+    # RFC 8956 section 3.8.2: source ::1234:5678:9a00:0/64-104 -> 02 68 40 12 34 56 78 9a
+    emit('offset', 1, 0, nlri_of(bytes.fromhex('02684012345678 9a'.replace(' ', ''))))
+    emit('offset', 1, 0, nlri_of(bytes.fromhex('0140200000000003810605815 0'.replace(' ', ''))))
+    emit('reserved-bits', 0, 0, nlri_of(bytes.fromhex('04 8e 50'.replace(' ', ''))))
+    emit('reserved-bits', 0, 0, nlri_of(bytes.fromhex('09 8c 02'.replace(' ', ''))))
+    emit('first-and', 0, 0, nlri_of(bytes.fromhex('03 c1 06'.replace(' ', ''))))
+    emit('vpn-short', 0, 1, nlri_of(bytes.fromhex('038106')))
+    emit('vpn-short', 0, 1, nlri_of(b''))
+    emit('two-byte-length-small', 0, 0, bytes.fromhex('f003038106'))
+    emit('wide-value', 0, 0, nlri_of(bytes.fromhex('05b10000000000000050')))
+    emit('undefined-type', 0, 0, nlri_of(bytes.fromhex('0381060d8105')))
+    emit('undefined-type', 1, 0, nlri_of(bytes.fromhex('0381060e8105')))
+    emit('value-overrun', 0, 0, nlri_of(bytes.fromhex('0381060591 50'.replace(' ', ''))))
+    emit('no-eol', 0, 0, nlri_of(bytes.fromhex('03810605 0150'.replace(' ', ''))))
+    emit('prefix-overrun', 0, 0, nlri_of(bytes.fromhex('01180a00')))
+    return out
+
+
 def run_decode_batch(inputs: list[dict]) -> list[dict]:
     lines = []
     for x in inputs:
@@ -992,7 +1089,7 @@ def corpus_to_case(j: dict) -> dict:
         t = tuple(t)
         c['tcomps'].append(t)
         c['kws'].append(j['kws'][i])
-        c['breaks'].append(True)
+        c['breaks'].append(not (t[0] == 'o' and t[2] & 0x40))
     c['rd_text'], c['rd'] = j.get('rd_text'), j.get('rd')
     if j.get('text'):
         c['text_override'] = j['text']
@@ -1003,9 +1100,9 @@ def corpus_to_case(j: dict) -> dict:
 def run(ctx: Ctx) -> None:
     rng = ctx.rng
     quick = ctx.tier == 'quick'
-    n_good = 2500 if quick else 60000
-    n_len = 60 if quick else 1500
-    n_dec = 5000 if quick else 150000
+    n_good = 6000 if quick else 60000
+    n_len = 100 if quick else 1500
+    n_dec = 15000 if quick else 150000
     ctx.rule = (
         'encode: text rules generated from abstract component lists (13 component types, IPv4/IPv6 with offsets, operator lists with AND chains, '
         'named and numeric values, repeated keywords, route distinguishers, then-clauses) plus enumerated field boundaries; a case is non-trivial when the '
@@ -1091,7 +1188,7 @@ def run(ctx: Ctx) -> None:
                 if not kls:
                     continue
                 ctx.count('oracle-fail:' + kls)
-                probe = case['stream'].split(':')[0] in ('boundary', 'afi-mix', 'afi-keyword', 'repeat-prefix', 'bit-sum', 'corpus')
+                probe = case['stream'].split(':')[0] in ('afi-mix', 'afi-keyword', 'repeat-prefix', 'bit-sum', 'corpus')
                 small, w2 = case, w
                 if kls in ('wrong-action', 'action-pack-raises'):
                     canon = {'class': kls, 'actions': sorted(a[1].split(':')[0] for a in case['actions'])}
@@ -1123,8 +1220,8 @@ def run(ctx: Ctx) -> None:
     for j in load_corpus():
         if j.get('direction') == 'decode':
             inputs.append({'v6': j['v6'], 'vpn': j['vpn'], 'hex': j['hex'], 'tags': sorted(j.get('tags', ['corpus'])), 'corpus': j['file']})
+    inputs += decode_probes()
     inputs += gen_decode_inputs(rng, n_dec, ref_pool)
-    single_fail: dict[str, set] = {}
     pending: list[tuple[dict, dict, str, str]] = []
     for start in range(0, len(inputs), 2000):
         if ctx.time_left() < (8 if quick else 60):
@@ -1151,25 +1248,23 @@ def run(ctx: Ctx) -> None:
             if cls:
                 ctx.count('oracle-fail:' + cls)
                 pending.append((x, r, cls, why))
-    # attribute failures: a failure with one feature tag is its own canonical form; one with several tags is
-    # explained when each... at least one of its tags already fails alone with the same class
-    def feature_tags(x: dict) -> list[str]:
-        return sorted(t for t in x['tags'] if t not in ('plain', 'from-text', 'vpn', 'corpus', 'payload-lt-256', 'len-240'))
-
+    # attribute failures to mechanisms: the enumerated probes (tag 'probe:<mechanism>') define the canonical forms;
+    # a random input that fails and carries the byte-level feature of a mechanism whose probe fails is explained by it
+    failing_mech = set()
     for x, r, cls, why in pending:
-        ft = feature_tags(x)
-        if len(ft) <= 1:
-            single_fail.setdefault(cls, set()).update(ft or ['plain'])
-    for x, r, cls, why in sorted(pending, key=lambda p: len(p[0]['hex'])):
-        ft = feature_tags(x)
-        if len(ft) > 1:
-            if any(t in single_fail.get(cls, set()) or any(t in s for s in single_fail.values()) for t in ft):
-                continue
-        canon = {'class': cls, 'feature': ft or ['plain'], 'family': 'ipv6' if x['v6'] else 'ipv4'}
-        if cls in ('wellformed-raises', 'ignored-bits-delivered', 'malformed-delivered') or ft in (['payload-ge-256'], ['len-256'], ['len-4095']):
-            canon.pop('family')  # family-independent mechanisms
-        if ft and ft[0].startswith('len-') and 'payload-ge-256' in x['tags']:
-            canon['feature'] = ['payload-ge-256']
+        for t in x['tags']:
+            if t.startswith('probe:'):
+                failing_mech.add(t[6:])
+    for x, r, cls, why in sorted(pending, key=lambda p: not any(t.startswith('probe:') for t in p[0]['tags'])):
+        probe = [t[6:] for t in x['tags'] if t.startswith('probe:')]
+        feats = scan_features(x['v6'], x['vpn'], x['hex'])
+        if probe:
+            canon = {'class': cls, 'feature': probe}
+        elif feats & failing_mech:
+            ctx.count('dec:explained-by:' + ','.join(sorted(feats & failing_mech)))
+            continue
+        else:
+            canon = {'class': cls, 'feature': sorted(t for t in x['tags'] if t not in ('plain', 'from-text')) or ['plain'], 'byte-features': sorted(feats)}
         key = json.dumps(canon, sort_keys=True)
         if key in seen:
             continue
@@ -1187,7 +1282,7 @@ def replay(path: str) -> int:
         case = new_case(rp['v6'], rp.get('stream', 'replay'))
         case['tcomps'] = [tuple(c) for c in rp['tcomps']]
         case['kws'] = rp['kws']
-        case['breaks'] = [True] * len(case['tcomps'])
+        case['breaks'] = [not (c[0] == 'o' and c[2] & 0x40) for c in case['tcomps']]
         case['rd'], case['rd_text'] = rp.get('rd'), rp.get('rd_text')
         case['actions'] = [tuple(a) for a in rp.get('actions', [])]
         case['text_override'] = rp['text']
